@@ -132,6 +132,31 @@ def Sink.finaliseCrash (s : Sink) (ps : List Nat) (k : Nat) : Sink :=
     | none => s
     | some d => (Sink.appendParts true false { (s.unlink first) with dst := some d } rest).1
 
+/-- Byte-granular crash: after `k` complete parts the append of the next listed part was cut after `j` of its bytes
+(disk error, signal); that part's file has not been unlinked. -/
+def Sink.finaliseCrashBytes (s : Sink) (ps : List Nat) (k j : Nat) : Sink :=
+  let c := s.finaliseCrash ps k
+  match (ps.drop k).head? with
+  | none => c
+  | some next =>
+    match c.lookup next with
+    | none => c
+    | some d => { c with dst := c.dst.map (· ++ d.take j) }
+
+/-- The process is KILLED (no unwinding, nothing flushed) after `k ≥ 1` listed parts have been appended and unlinked.
+`flushed = true`: every part's bytes are pushed out of the process (`f.flush()`) before its file is unlinked - the
+kill is the part-granular crash.  `flushed = false`, the code as found: the destination is opened buffered
+(`open(dst, "ab")`) and a part is unlinked right after `f.write`; parts smaller than the write buffer (8 KiB) have
+not left the process yet - the destination holds the renamed first part only, the unlinked parts' bytes are gone.
+(Model of the as-found case for listed parts below the buffer size.) -/
+def Sink.finaliseKill (flushed : Bool) (s : Sink) (ps : List Nat) (k : Nat) : Sink :=
+  let c := s.finaliseCrash ps k
+  if flushed || k == 0 then c
+  else
+    match ps with
+    | [] => c
+    | first :: _ => { c with dst := match s.lookup first with | some d => some d | none => c.dst }
+
 /-- `list_active()` (172-175) asks for ONE page: `list_multipart_uploads` answers with at most `page` uploads
 (1000 on S3) and `IsTruncated`; the code does not follow `NextKeyMarker` / `NextUploadIdMarker`.  `cancel("all")`
 therefore aborts the first `page` active uploads of the key (oldest first), then resets the object. -/
